@@ -358,7 +358,8 @@ func (f *Fam) genTx1(r *rand.Rand, s *Snapshot) string {
 		fields = fmt.Sprintf("from=%s to=%s amt=%s", addr, to, amt)
 	case x < 85:
 		kind = "changeparam"
-		keys := []string{"pos/MaxValidators", "pos/SignedBlocksWindow", "pos/StakeMinimum", "pos/UnstakingTime", "auth/MaxMemoCharacters", "gov/daoOwner", "pos/Nope", "nosuch/Key", "pos/MinSignedPerWindow", "gov/acl", "gov/acl"}
+		keys := []string{"pos/MaxValidators", "pos/SignedBlocksWindow", "pos/StakeMinimum", "pos/UnstakingTime", "auth/MaxMemoCharacters", "gov/daoOwner", "pos/Nope", "nosuch/Key", "pos/MinSignedPerWindow", "gov/acl", "gov/acl",
+			"pos/DowntimeJailDuration", "pos/MaxEvidenceAge", "pos/SlashFractionDoubleSign", "pos/SlashFractionDowntime", "gov/upgrade"}
 		key := keys[r.Intn(len(keys))]
 		// the sender is mostly the address the access-control list names for this key (ownership is handed over per key)
 		var curACL govTypes.ACL
@@ -400,6 +401,15 @@ func (f *Fam) genTx1(r *rand.Rand, s *Snapshot) string {
 			}
 			bz, _ := govTypes.ModuleCdc.MarshalJSON(na)
 			val = string(bz)
+		case "pos/DowntimeJailDuration":
+			val = fmt.Sprintf(`"%d"`, pick(r, 1, 60*sec, 3600*sec))
+		case "pos/MaxEvidenceAge":
+			val = fmt.Sprintf(`"%d"`, pick(r, 60*sec, 600*sec, 86400*sec))
+		case "pos/SlashFractionDoubleSign", "pos/SlashFractionDowntime":
+			val = []string{`"0.000000000000000000"`, `"0.010000000000000000"`, `"0.500000000000000000"`, `"1.000000000000000000"`, `"0.333333333333333333"`}[r.Intn(5)]
+		case "gov/upgrade":
+			// the plan set as a plain parameter (the upgrade message is the other way); heights stay out of reach
+			val = fmt.Sprintf(`{"type":"gov/upgrade","value":{"Height":"%d","Version":"%s"}}`, pick(r, 0, 6000000, 7000000), []string{"", "2.1", "3.0"}[r.Intn(3)])
 		case "pos/MinSignedPerWindow":
 			val = `"0.500000000000000000"`
 		default:
@@ -420,6 +430,9 @@ func (f *Fam) genTx1(r *rand.Rand, s *Snapshot) string {
 	case x < 98:
 		kind = "daoburn"
 		fields = fmt.Sprintf("from=%s amt=%d", addr, pick(r, 1, 100, 1000, 50000000, 50000001))
+		if r.Intn(2) == 0 { // a burn that names a recipient: the handler ignores it, the signature covers it
+			fields += " to=" + other
+		}
 	default:
 		kind = "upgrade"
 		// an upgrade height the chain will not reach: at that height the gov module's BeginBlock stops the process
@@ -438,8 +451,34 @@ func (f *Fam) genTx1(r *rand.Rand, s *Snapshot) string {
 	mut := "none"
 	if r.Intn(16) == 0 {
 		mut = []string{"sig", "fee", "memo", "ent", "emptysig", "trunc", "garbage", "msswap", "msdrop", "memosp", "memopre", "msg", "chain", "nilint"}[r.Intn(14)]
-		if mut == "msg" && mode == "simulate" {
-			mut = "memosp" // a simulation checks no signature: a changed message would simply be another message
+	}
+	// a signed field of the message changed after signing: every field of every message type in turn, and more often
+	// for the governance messages, whose senders are mostly the accounts that may issue them
+	if (mut == "none" && r.Intn(40) == 0) || (mut == "none" && x >= 75 && r.Intn(8) == 0) {
+		mut = "msg"
+	}
+	if mut == "msg" && mode == "simulate" {
+		mut = "memosp" // a simulation checks no signature: a changed message would simply be another message
+	}
+	if mut == "msg" {
+		var mfs []string
+		switch kind {
+		case "send":
+			mfs = []string{"to", "amt"}
+		case "daotransfer":
+			mfs = []string{"to", "amt", "action"}
+		case "daoburn":
+			mfs = []string{"to", "amt", "action"}
+			if strings.Contains(fields, " to=") {
+				mfs = append(mfs, "toempty", "toempty")
+			}
+		case "upgrade":
+			mfs = []string{"h", "ver"}
+		case "changeparam":
+			mfs = []string{"key", "val"}
+		}
+		if len(mfs) > 0 {
+			fields += " mf=" + mfs[r.Intn(len(mfs))]
 		}
 	}
 	pk := 1
@@ -510,7 +549,24 @@ func (f *Fam) Gen(r *rand.Rand, i int) string {
 	case 4:
 		f.gen.phase = 1
 		f.gen.blocks++
+		if strings.HasPrefix(f.Profile, "replica") {
+			// between two blocks: export the state and restart two fresh instances from it - mostly when the import
+			// will accept the export (genesis validation refuses unstaked records, jailed staked validators and
+			// stakes below the default minimum) and more than one validator has a previous-state power
+			importable := len(s.Prev) >= 2
+			for _, v := range s.Vals {
+				if v.Status == 0 || (v.Jailed && v.Status == 2) || v.Tokens.LT(sdk.NewInt(1000000)) {
+					importable = false
+				}
+			}
+			if (importable && r.Intn(3) == 0) || r.Intn(40) == 0 {
+				f.gen.phase = 5
+			}
+		}
 		return "commit"
+	case 5:
+		f.gen.phase = 1
+		return "mon.export"
 	}
 	return f.genInit(r)
 }
